@@ -63,6 +63,9 @@ type UEParams struct {
 	AccLens    []int  `json:"acc_lens,omitempty"`
 	AMBRDL     int64  `json:"ambr_dl"`
 	AMBRUL     int64  `json:"ambr_ul"`
+	// SessAMBR is the value part of the mandatory Session-AMBR IE of the ESTABLISHMENT ACCEPT as hex
+	// (unit, 2 value octets, unit, 2 value octets); empty = 1 Mbps units, 100/50.
+	SessAMBR string `json:"sess_ambr,omitempty"`
 	TransOpt   int    `json:"trans_opt"` // optional IEs of the setup request transfer
 	SetupOpt   int    `json:"setup_opt"` // optional top-level IEs of PDUSessionResourceSetupRequest
 	FiveQI     int    `json:"five_qi"`
